@@ -168,6 +168,45 @@ def run(ctx):
                 ok_src = True
                 assign_bbs.add(b)
                 whole = whole or [(b, "call:core::clone::Clone::clone_from", (), t.get("sp"))]
+    # or field by field: every field of RunState is overwritten from the same field of the snapshot (a slice copy of the whole
+    # memory counts for `mem`), each on every path of the arm - the same total assignment without a fresh allocation
+    fieldwise = False
+    if not (bool(whole) and ok_src):
+        fields_ = [f["name"] for f in prog.adt(RUNSTATE)["variants"][0]["fields"]]
+        got_f = {}
+        sm0 = disp.succ_map()
+        leaving0 = {b for b in region if any(x not in region for x in sm0[b])}
+        for b, kind, path, span in ws:
+            if len(path) != 1 or path[0] not in fields_:
+                got_f = None
+                break
+            fld = path[0]
+            okw = False
+            if kind == "assign":
+                for s_ in disp.stmts(b):
+                    if s_["k"] == "assign" and [e.get("n") for e in s_["p"].get("pr", []) if isinstance(e, dict) and "f" in e][-1:] == [fld]:
+                        e = kit.strip_refs(disp.rvalue_expr(s_["r"], 12))
+                        while e[0] in ("deref", "ref"):
+                            e = e[1]
+                        base = e[1] if e[0] == "field" else None
+                        while base is not None and base[0] in ("deref", "ref"):
+                            base = base[1]
+                        okw = e[0] == "field" and e[2] == fld and base is not None and base[0] == "field" and base[2] == snap
+            elif kind.startswith("call:") and kind.endswith(("copy_from_slice", "clone_from_slice", "clone_from")):
+                t_ = disp.term(b)
+                d_ = expr_str(disp.expr(t_["args"][0], 12), 400)
+                s2 = expr_str(disp.expr(t_["args"][1], 12), 400)
+                okw = ("." + fld) in d_ and ("." + snap) in s2 and ("." + fld) in s2 and "Range" not in d_ and "Range" not in s2
+            if not okw:
+                got_f = None
+                break
+            got_f.setdefault(fld, set()).add(b)
+        if got_f is not None and set(got_f) == set(fields_):
+            fieldwise = all(not ((disp.reachable(arms["Reset"], avoid=bs) & leaving0) - bs) for bs in got_f.values())
+            if fieldwise:
+                ok_src = True
+                whole = whole or [(arms["Reset"], "fieldwise", (), None)]
+                assign_bbs |= set.union(*got_f.values())
     ok = bool(whole) and ok_src
     # ... on every path through the arm (a reset that is skipped under some condition is not a reset)
     sm = disp.succ_map()
@@ -186,7 +225,7 @@ def run(ctx):
         ctx.violation("reset-not-total", sp_file_line(disp.term(arms["Reset"]).get("sp")),
                       "the reset arm does not assign the entire machine state from a clone of the saved initial state "
                       "(writes seen: %s)" % [[w[1], ".".join(w[2]) or "*"] for w in ws])
-    others = [w for w in ws if not (w[2] == () and (w[1] in ("assign", "drop") or (w[1] == "call:core::clone::Clone::clone_from" and w[0] in assign_bbs)))]
+    others = [] if fieldwise else [w for w in ws if not (w[2] == () and (w[1] in ("assign", "drop") or (w[1] == "call:core::clone::Clone::clone_from" and w[0] in assign_bbs)))]
     ctx.oblig(not others)
     for b, kind, path, span in others:
         ctx.violation("reset-extra-write|%s" % (".".join(path) or "*"), sp_file_line(span),
